@@ -272,6 +272,18 @@ InPrintSet(toks, T) ==
   r.ok /\ r.i = Len(toks) + 1 /\ PrintOT(r.t, TRUE) = toks /\ NoRepeats(r.t) /\ Denote(r.t) = T
 MembershipAgrees(T) == \A o \in Orderings(T) : InPrintSet(PrintType(T, o), T)
 
+\* Near misses: a text of the universe with one token removed (or replaced).  The parser model
+\* must agree with the implementation on these too (accept / reject, the type denoted, how much
+\* of the text is consumed); and whatever it accepts prints back to exactly the consumed prefix,
+\* unless `!' was written inside array brackets (`[!]' is printed `[]').
+DropTok(s, p) == SubSeq(s, 1, p - 1) \o SubSeq(s, p + 1, Len(s))
+ReplaceTok(s, p, t) == SubSeq(s, 1, p - 1) \o <<t>> \o SubSeq(s, p + 1, Len(s))
+HasExplicitNever(s) == \E i \in 1..(Len(s) - 2) : s[i] = "[" /\ s[i + 1] = "!" /\ s[i + 2] = "]"
+ParsePrintsBack(toks) ==
+  LET r == ParseTree(toks) IN
+  r.ok => /\ r.i <= Len(toks) + 1
+          /\ (HasExplicitNever(toks) \/ PrintOT(r.t, TRUE) = SubSeq(toks, 1, r.i - 1))
+
 \* a type for which Variable::of_type has an answer (type_filter.rs unwraps it; `it ? !' is a known
 \* C02 finding, not C15's business)
 RECURSIVE HasDefault(_)
@@ -495,6 +507,13 @@ LitRoundTrip(v) == FromStrOutcome(PrintVal(v)) = Denotes(v)
 ProgRoundTrip(v) == ProgOutcome(PrintVal(v)) = IF ContainsMinInt(v) THEN Overflow ELSE Denotes(v)
 \* MIN_INT is the only int whose magnitude is not an int
 MinIntOnly(v) == (v.k = "int" /\ IsI64(v)) => (IsMinInt(v) <=> ~IntOkMagnitude(v))
+
+\* near misses for the literal reader: whatever it accepts prints back to the text it was given
+\* (a minus in front of 0 excepted: -0 is 0)
+HasMinusZero(s) == \E i \in 1..(Len(s) - 1) : s[i] = Pn("-") /\ s[i + 1] = AtomInt(<<0>>)
+LitPrintsBack(toks) ==
+  LET o == FromStrOutcome(toks) IN
+  o.st = "ok" => (HasMinusZero(toks) \/ PrintVal(o.v) = toks)
 
 (***************************************************************************)
 (* Integer literal forms: prefix, digits, underscores.                       *)
